@@ -44,9 +44,11 @@ func drainDistinct(p *sync.Pool, n int) bool {
 // drainUnshared takes up to n buffers out of the buffer pool and reports whether they are pairwise distinct
 // objects over pairwise distinct memory: each one is given its own marker, and every marker must still be
 // there afterwards (two Buffers over one array overwrite each other's).
-func drainUnshared(p *sync.Pool, n int) bool {
+func drainUnshared(p *sync.Pool, n int, owned ...*bytes.Buffer) bool {
 	var seen []*bytes.Buffer
 	ok := true
+	seen = append(seen, owned...) // buffers somebody else was handed earlier and still holds: must not come out again
+	nOwned := len(owned)
 	for i := 0; i < n; i++ {
 		x := p.Get()
 		if x == nil {
@@ -66,7 +68,7 @@ func drainUnshared(p *sync.Pool, n int) bool {
 		b.WriteByte(byte('0' + i))
 		seen = append(seen, b)
 	}
-	for i, b := range seen {
+	for i, b := range seen[nOwned:] {
 		want := "MARKER-" + string([]byte{byte('0' + i)})
 		if b.String() != want {
 			ok = false
@@ -75,8 +77,8 @@ func drainUnshared(p *sync.Pool, n int) bool {
 	return ok
 }
 
-func poolsSound(tr *Transcoder) bool {
-	ok := drainUnshared(&tr.bufferPool.Pool, 8)
+func poolsSound(tr *Transcoder, owned ...*bytes.Buffer) bool {
+	ok := drainUnshared(&tr.bufferPool.Pool, 8, owned...)
 	if cp := tr.compressors[CompressionGzip]; cp != nil {
 		// these pools have a New func, so draining always yields objects: distinctness over 4 draws
 		ok = drainDistinct(&cp.compressors, 4) && ok
@@ -105,7 +107,7 @@ func hC14Pool() {
 	unaryKind := cfg.kind == fkUnary
 	targetEnveloped := target == ProtocolGRPC || target == ProtocolGRPCWeb || (target == ProtocolConnect && !unaryKind)
 	p.backend.closeBody = verifChoose("handlerClosesBody", 2) == 1
-	scenario := verifChoose("scenario", 8)
+	scenario := verifChoose("scenario", 9)
 	if scenario == 7 {
 		// (see case 7 below) needs a streaming client whose compressed JSON messages are re-encoded
 		if !clientEnveloped(cfg.client) || cfg.kind != fkBidi {
@@ -166,6 +168,27 @@ func hC14Pool() {
 			verifObsInt("bytes-read-after-error", int64(afterError))
 			verifAssert(afterError <= 0, "C14: after a request body reported an error, further reads hand out nothing (no pooled buffer is read)")
 		}()
+	case 8: // the backend ends with a complete end-of-stream frame whose content is malformed (optionally after a message)
+		if target != ProtocolGRPCWeb && !(target == ProtocolConnect && !unaryKind) {
+			return
+		}
+		withMsg := verifChoose("messageBeforeEnd", 2) == 1
+		p.tr.methods[pipePath].handler = http.HandlerFunc(func(w http.ResponseWriter, r *http.Request) {
+			readAllSized(r.Body, 4, 100)
+			if p.backend.closeBody {
+				r.Body.Close()
+			}
+			w.Header().Set("Content-Type", p.backendContentType())
+			if withMsg {
+				w.Write(appendFrame(nil, 0, encodeMsg(p.backend.codec, wireMsg{abstract: []byte{'w'}})))
+			}
+			if target == ProtocolGRPCWeb {
+				w.Write(appendFrame(nil, 0x80, []byte("no colon in this trailer line\r\n")))
+			} else {
+				w.Write(appendFrame(nil, 2, []byte("{not json")))
+			}
+			p.backend.at(3)
+		})
 	case 6: // a backend without envelopes writes a complete message and then more data that exceeds the limit
 		if targetEnveloped {
 			return
@@ -223,7 +246,7 @@ func hC14Pool() {
 		verifAssert(b.String() == "MARK", "C14: a buffer released to the pool is not written by its previous owner any more")
 	}
 	p.backend.hook = nil
-	verifAssert(!takenTwice && poolsSound(p.tr), "C14: no pooled object is owned twice after the RPC")
+	verifAssert(!takenTwice && poolsSound(p.tr, taken...), "C14: no pooled object is owned twice after the RPC")
 
 	// a follow-up RPC on the same transcoder behaves like on a fresh one
 	fresh := newPipe(cfg)
